@@ -101,6 +101,7 @@ let gop_of_string (s : string) : gop =
              (if vs = "-" then None else Some (z_of_string vs)))
   | ["ef"; f] -> GFilter (z_of_string f)
   | ["hi"] -> GHasImages
+  | ["gi"] -> GImage
   | ["dc"] -> GShape
   | _ -> failwith ("gop " ^ s)
 
@@ -109,6 +110,7 @@ let gres_to_string (r : gres outcome) : string =
   | Ok (GGlyph (g, v)) -> z_to_string g ^ "." ^ z_to_string v
   | Ok GUnit -> "-"
   | Ok (GBool b) -> if b then "1" else "0"
+  | Ok GNoImage -> "none"
   | Err e -> "err:" ^ err_to_string e
   | Panic -> "panic"
   | OOB -> "oob"
